@@ -236,15 +236,39 @@ def oracle_stream(events, nsamples=None):
     return None, known
 
 
+F9_MARK = "KNOWN-F9:"
+
+
+def f9_signature(text, H):
+    """Known finding F9, decided on the transmitted header and the failure signature: the callsign is shorter than eight
+    characters and the reported text is the transmitted header followed by at most (8 - callsign length) allowed characters,
+    the last of which is '-' (what the bursts carried AFTER the header voted to '<chars>-', and the greedy 3..8 character
+    callsign of the header grammar swallowed it)."""
+    if not text.startswith(H) or len(text) == len(H):
+        return False
+    ext = text[len(H):]
+    call = H[:-1].split(b"-")[-1]
+    return (len(call) < 8 and len(ext) <= 8 - len(call) and ext.endswith(b"-")
+            and all(samegen.is_allowed(c) for c in ext) and b"\n" not in ext)
+
+
+def is_f9(complaint):
+    return bool(complaint) and complaint.startswith(F9_MARK)
+
+
 def oracle_exact(events, H, want_som=True, want_eom=True):
     """C01/C02: exactly one SOM with text H (if wanted), then exactly one EOM (if wanted); nothing else"""
     soms = [e for e in events if e["kind"] == "som"]
     eoms = [e for e in events if e["kind"] == "eom"]
     errs = [e for e in events if e["kind"] == "err"]
     if want_som:
+        if len(soms) == 2 and f9_signature(soms[0]["text"], H) and soms[1]["text"] == H and len(eoms) == (1 if want_eom else 0):
+            return F9_MARK + " the header was first reported extended by %r and then again with the exact text" % soms[0]["text"][len(H):].decode("latin1")
         if len(soms) != 1:
             return "%d StartOfMessage reported, expected exactly 1" % len(soms)
         if soms[0]["text"] != H:
+            if f9_signature(soms[0]["text"], H):
+                return F9_MARK + " the reported text is the transmitted header followed by %r" % soms[0]["text"][len(H):].decode("latin1")
             return "StartOfMessage text differs from the transmitted header"
     elif soms:
         return "a StartOfMessage was reported although fewer than two header bursts were sent"
@@ -293,3 +317,34 @@ def near_miss_line(rng):
     kind, script = near_miss_script(rng, rate)
     tx = Tx(rng, rate=rate)
     return kind, tx, tx.line(script=script)
+
+
+def run_f9_witness(ctx, pid):
+    """replay the stored witness of known finding F9 on the implementation; the KNOWN-FINDING line is printed only if the
+    witness still reproduces (text = transmitted header + a few characters ending in '-')"""
+    kd = [k for k in vlib.load_known_findings(pid) if k.get("class") == "F9" and k.get("kind") == "known"]
+    if not kd:
+        return None
+    r = run_rx([kd[0]["witness_input"]], check_model=True)[0]
+    if r.get("error"):
+        return False
+    if r["model"] != r["impl"]:
+        ctx.violation("correspondence", "receiver model replay differs from the implementation on the F9 witness",
+                      {"input": kd[0]["witness_input"], "model": (r["model"] or "")[:1500], "impl": r["impl"][:1500]})
+    # the two combine-level witnesses of coq/Properties/C01.v (C01_F9_refuted, C01_F9_old_burst_refuted) on model and implementation
+    h9 = b"ZCZC-PEP-ADR-294557-697563+8629-0401342-MFZ-"
+    old = b"ZCZC-PEP-SVR-168713-654046+8638-0972056-S6FYGVNS-"
+    w9 = b"ZCZC-Eqd-NIC-558931+2204-2221024-NWU-"
+    wl = ["combine %s %s %s" % (hx(h9 + bytes([205, 156])), hx(h9 + bytes([42, 165])), hx(h9 + bytes([192, 235]))),
+          "combine %s %s %s" % (hx(old), hx(w9 + b"\xff\xff\xff"), hx(w9 + b"\x00\x00\x00"))]
+    mo = vlib.run_lines(vlib.MODELRUN, wl); im = vlib.run_lines(vlib.IMPLRUN, wl)
+    for a, b_, l_ in zip(mo, im, wl):
+        if a != b_:
+            ctx.violation("correspondence", "combine: model and implementation differ on an F9 witness", {"input": l_, "model": a, "impl": b_})
+    ctx.coverage["known_finding_F9_combine_witnesses"] = [x[:120] for x in im]
+    H = kd[0]["witness_header"].encode("latin1")
+    soms = [e for e in parse_events(r["impl"]) if e["kind"] == "som"]
+    hit = len(soms) == 1 and f9_signature(soms[0]["text"], H)
+    if hit and kd[0]["line"] not in ctx.known:
+        ctx.known.append(kd[0]["line"])
+    return hit
